@@ -25,7 +25,7 @@ ASSUMPTIONS = [
     "lean/Ufw/Model/Regp.lean is a hand transcription of parse_header / payload_plausible / check_payload / regp_recv / regp_process tied to the code by the correspondence run; Spec.Regp.classify is the independent reading of doc/regp.txt",
 ]
 TRUSTED = ["correspondence harness harness/h_regp.c + tools/lib/vf.py (verdict, backend call log, reply octets)"]
-DESIGN_REF = "DESIGN.md section 8, C07"
+DESIGN_REF = "DESIGN.md section 0.2 (as built) and section 8, C07"
 TECHNIQUE = ("Lean 4 proofs: the model's verdict on an arbitrary octet string equals the independent reading of the document (classify); CRC-16/ARC is linear, its "
              "step is injective, so every error confined to 16 consecutive bits and every detected-class error in a checksummed field changes the checksum; a frame "
              "that is not accepted causes no backend call and no acknowledgement + exhaustive 1-bit/burst/truncation enumeration in the differential run")
